@@ -296,6 +296,19 @@ func TestArgumentTables(t *testing.T) {
 			}
 		}
 	}
+	// cast: numeric-looking strings in every spelling a conversion routine might read differently
+	csubj := []any{"010", "0755", "-012", "012.0", "0x1F", "0X1f", "0b101", "0o17", "007", "08", "09", "+12.6", "-12.6", "1e3", "1E-2", " 12", "12 ", "1_000", "1,000", "12abc", "", ".5", "5.", "-.5e1", "inf", "-Inf", "NaN", "nan",
+		"9223372036854775807", "9223372036854775808", "-9223372036854775808", "-9223372036854775809", "1e19", "18446744073709551615", "0.1e-400", "true", "True", "TRUE", "t", "T", "1", "0", "f", "false", "F", "yes", "no", "on", "off", "null", "nil",
+		int64(0), int64(-3), int64(1) << 53, 2.5, -0.0, 1e19, -1e19, 0.99999, true, false}
+	for si, subj := range csubj {
+		for ti, ty := range []string{"int", "float", "bool", "str"} {
+			if (si+ti)%evid.NShards() != evid.Shard() {
+				continue
+			}
+			run(fmt.Sprintf("cast/%d/%d", si, ti), map[string]any{"kx": subj, "keep": int64(42)}, gen.NCall("cast", id("kx"), str(ty)))
+			run(fmt.Sprintf("castvar/%d/%d", si, ti), map[string]any{"keep": int64(42)}, gen.NSet("kx", sgen.Lit(subj)), gen.NCall("cast", id("kx"), str(ty)))
+		}
+	}
 	verbs := []string{"%v", "%d", "%s", "%5.1f", "%q", "%x", "%t", "%08.3f", "%-6d|", "%+d", "%%", "%5s|", "%T", "%c", "%e"}
 	fargs := []func() *gen.Node{
 		func() *gen.Node { return gen.NInt(42) }, func() *gen.Node { return gen.NFloat(2.25) }, func() *gen.Node { return str("s é") },
